@@ -331,7 +331,13 @@ fn judge<F: Fl>(
     let r = std::panic::catch_unwind(std::panic::AssertUnwindSafe(|| run_obs_history::<F>(h)));
     let r = match r {
         Ok(r) => r,
-        Err(_) => Err(Div { prop: if F::ASYNC { "C16" } else { "PANIC" }, what: format!("unexpected panic: {}", last_panic()) }),
+        Err(_) => {
+            // the harness's own "a future of the async-lock flavour did not complete" is a C16 matter; a panic
+            // raised inside the library or its dependencies belongs to whatever property's history provoked it
+            let msg = last_panic();
+            let own = msg.contains("async-lock flavour:");
+            Err(Div { prop: if F::ASYNC && own { "C16" } else { "PANIC" }, what: format!("unexpected panic: {msg}") })
+        }
     };
     match r {
         Ok(f) => {
@@ -509,6 +515,8 @@ pub fn run_c02_seq(p: &Params) -> Outcome {
     let mut out = exh("C02", p, "c02-exh", Flv::Sync, Focus::Wakes, if p.thorough { 7 } else { 6 }, 3, &nt);
     out.merge(exh("C02", p, "c02-exh-async", Flv::Async, Focus::Wakes, if p.thorough { 6 } else { 5 }, 3, &nt));
     out.merge(rand("C02", p, "c02-rand", Flv::Both, p.n(60_000, 1_000_000), 30, 200, &nt));
+    // polls that are Pending because the value lock is held (async-lock flavour) are owed a wake as well
+    out.merge(run_guard_scripts("C02", p, p.n(20_000, 300_000)));
     out
 }
 
@@ -566,7 +574,8 @@ pub fn run_guard_scripts(prop: &str, p: &Params, n: u64) -> Outcome {
                     1 => "guard_scripts_writer_waits",
                     2 => "guard_scripts_next_and_writer_queued",
                     3 => "guard_scripts_two_queued_setters",
-                    _ => "guard_scripts_queued_next_now",
+                    4 => "guard_scripts_queued_next_now",
+                    _ => "guard_scripts_subscribe_under_guard",
                 });
                 out.ev.nontrivial(hash_of(&log));
                 if out.ev.samples.len() < 2 {
@@ -666,8 +675,75 @@ fn guard_script(rng: &mut Rng, log: &mut Vec<String>) -> Result<u8, String> {
             }
         }
     }
-    let script = rng.below(5) as u8;
-    if script == 3 {
+    let script = rng.below(6) as u8;
+    if script == 5 {
+        // ---- subscribe() started while a write guard is held: the new subscriber starts from the version
+        // current when the call completes, so without a later update its first poll is Pending
+        let mut g = bo(ob.write())?;
+        log.push("write guard acquired".into());
+        let mut sf = Box::pin(ob2.subscribe());
+        let (_fl, wk) = flag_waker();
+        let mut early = match sf.as_mut().poll(&mut Context::from_waker(&wk)) {
+            Poll::Ready(s) => Some(s),
+            Poll::Pending => None,
+        };
+        log.push(format!("subscribe() polled while the write guard is held -> {}", if early.is_some() { "Ready" } else { "Pending" }));
+        if rng.chance(1, 2) {
+            let v = gen_val(rng);
+            let prev = ObservableWriteGuard::set(&mut g, Hk::new(v)).val();
+            if prev != value {
+                return Err(format!("guard.set returned {prev:?}, previous value is {value:?}"));
+            }
+            value = v;
+            version += 1;
+            log.push(format!("guard.set({v:?})"));
+        }
+        drop(g);
+        log.push("guard dropped".into());
+        let mut fresh = match early.take() {
+            Some(s) => s,
+            None => {
+                let mut got = None;
+                for _ in 0..8 {
+                    let (_f, w) = flag_waker();
+                    if let Poll::Ready(s) = sf.as_mut().poll(&mut Context::from_waker(&w)) {
+                        got = Some(s);
+                        break;
+                    }
+                }
+                match got {
+                    Some(s) => s,
+                    None => return Err("subscribe() did not complete after the write guard was dropped".into()),
+                }
+            }
+        };
+        drop(sf);
+        let got = bo(fresh.get())?.val();
+        if got != value {
+            return Err(format!("[C01|C16] the new subscriber reads {got:?}, the stored value is {value:?}"));
+        }
+        let (r, _f) = poll_sub(&mut fresh, rng.below(3));
+        log.push(format!("first poll of the new subscriber -> {r:?}"));
+        // (if subscribe() completed while the guard was held and the guard stored a value afterwards, that
+        // value is an update the subscriber has not observed: Ready is right then)
+        if r != Poll::Pending && !(r == Poll::Ready(Some(value)) && log.iter().any(|l| l.ends_with("-> Ready")) && log.iter().any(|l| l.starts_with("guard.set"))) {
+            return Err(format!("[C01|C16] a subscriber created by subscribe() while a write guard was held answered {r:?} on its first poll although nothing was stored after the call completed"));
+        }
+        drop(fresh);
+        for i in 0..k {
+            let (r, f) = poll_sub(&mut subs[i], rng.below(3));
+            let expect = if observed[i] < version { Poll::Ready(Some(value)) } else { Poll::Pending };
+            if r != expect {
+                return Err(format!("[C01|C16] s{i} answered {r:?}, expected {expect:?}"));
+            }
+            if r.is_ready() {
+                observed[i] = version;
+                reg_flags[i] = None;
+            } else {
+                reg_flags[i] = Some(f);
+            }
+        }
+    } else if script == 3 {
         // ---- two writers queue behind a write guard, at least one of them conditional, both storing the same
         // value: the pair of results must be what one of the two orders gives
         let v = if rng.chance(1, 4) { value } else { gen_val(rng) };
@@ -999,7 +1075,7 @@ fn guard_script(rng: &mut Rng, log: &mut Vec<String>) -> Result<u8, String> {
             for i in 0..k {
                 if let Some(f) = &reg_flags[i] {
                     if !f.woken() {
-                        return Err(format!("s{i} was Pending before the guard; an update through the guard did not wake it"));
+                        return Err(format!("[C02|C16] s{i} was Pending before the guard; an update through the guard did not wake it"));
                     }
                 }
             }
@@ -1014,7 +1090,7 @@ fn guard_script(rng: &mut Rng, log: &mut Vec<String>) -> Result<u8, String> {
         for i in 0..k {
             if let Some(f) = &lock_flags[i] {
                 if observed[i] < version && !f.woken() {
-                    return Err(format!("s{i} was polled while the write guard was held; dropping the guard did not wake it although an update is available"));
+                    return Err(format!("[C02|C16] s{i} was polled while the write guard was held; dropping the guard did not wake it although an update is available"));
                 }
             }
         }
@@ -1140,7 +1216,7 @@ fn guard_script(rng: &mut Rng, log: &mut Vec<String>) -> Result<u8, String> {
         for i in 0..k {
             if let Some(f) = &reg_flags[i] {
                 if !f.woken() {
-                    return Err(format!("s{i} was Pending; the completed write did not wake it"));
+                    return Err(format!("[C02|C16] s{i} was Pending; the completed write did not wake it"));
                 }
             }
         }
@@ -1157,7 +1233,7 @@ fn guard_script(rng: &mut Rng, log: &mut Vec<String>) -> Result<u8, String> {
     for i in 0..k {
         if let Some(f) = &reg_flags[i] {
             if !f.woken() {
-                return Err(format!("s{i} was Pending; set() did not wake it"));
+                return Err(format!("[C02|C16] s{i} was Pending; set() did not wake it"));
             }
         }
         let (r, _f) = poll_sub(&mut subs[i], rng.below(3));
